@@ -536,3 +536,77 @@ Proof.
     rewrite H2. rewrite <- sweep_len_iter. rewrite pick_seq_all. reflexivity.
   - apply sweep_slice_zero_step in E. discriminate.
 Qed.
+
+(* ---- D3: every assignment of a sweep assigns exactly the sweep's keys, in order --------------------------------- *)
+Lemma keys_eqb_eq a b : keys_eqb a b = true <-> a = b.
+Proof.
+  revert b; induction a as [|x a IH]; intros [|y b]; simpl; try (split; [discriminate|discriminate]); [tauto|].
+  rewrite andb_true_iff, String.eqb_eq, IH. split; [intros [-> ->]; reflexivity|intros H; injection H; auto].
+Qed.
+
+Definition keyed (ks : list key) (l : list assign) : Prop := forall a, In a l -> map fst a = ks.
+
+Lemma prod_all_keyed ls kss : Forall2 (fun l ks => keyed ks l) ls kss -> keyed (concat kss) (prod_all ls).
+Proof.
+  induction 1 as [|l ks ls kss Hl _ IH]; simpl.
+  - intros a [<-|[]]. reflexivity.
+  - intros a Ha. apply in_flat_map in Ha. destruct Ha as [x [Hx Ha]]. apply in_map_iff in Ha. destruct Ha as [y [<- Hy]].
+    rewrite map_app, (Hl x Hx), (IH y Hy). reflexivity.
+Qed.
+
+Lemma zipw_In a l1 l2 : In a (zipw l1 l2) -> exists x y, In x l1 /\ In y l2 /\ a = x ++ y.
+Proof.
+  revert l2; induction l1 as [|x l1 IH]; intros [|y l2]; simpl; try tauto.
+  intros [<-|H]; [exists x, y; auto|]. destruct (IH l2 H) as [x' [y' [H1 [H2 H3]]]]. exists x', y'. auto.
+Qed.
+
+Lemma zip_all_keyed ls kss : Forall2 (fun l ks => keyed ks l) ls kss -> keyed (concat kss) (zip_all ls).
+Proof.
+  induction 1 as [|l ks ls kss Hl Hrest IH]; [intros a []|].
+  destruct ls as [|l2 ls].
+  - inversion Hrest; subst. simpl. rewrite app_nil_r. exact Hl.
+  - change (zip_all (l :: l2 :: ls)) with (zipw l (zip_all (l2 :: ls))). intros a Ha.
+    destruct (zipw_In _ _ _ Ha) as [x [y [Hx [Hy ->]]]]. simpl. rewrite map_app, (Hl x Hx), (IH y Hy). reflexivity.
+Qed.
+
+Lemma pad_keyed ks n l : l <> [] -> keyed ks l -> keyed ks (pad n l).
+Proof.
+  intros Hne Hl a Ha. unfold pad in Ha. apply in_app_or in Ha. destruct Ha as [Ha|Ha]; [auto|].
+  apply repeat_spec in Ha. subst a. apply Hl. destruct l as [|x l]; [congruence|].
+  clear. revert x. induction l as [|y l IH]; intros x; [left; reflexivity|]. right. apply IH.
+Qed.
+
+Lemma forallb_Forall {A} (f : A -> bool) l : forallb f l = true <-> Forall (fun x => f x = true) l.
+Proof. rewrite forallb_forall, Forall_forall. tauto. Qed.
+
+Theorem sweep_keys_iter : forall s, wf s = true -> uniform s = true -> keyed (keys s) (iter s).
+Proof.
+  induction s as [|k vs|k a b n|l IH|l IH|l IH|l IH|rs] using sweep_ind'; intros Hw Hu; simpl in Hw, Hu.
+  - intros a [<-|[]]. reflexivity.
+  - intros a Ha. simpl in Ha. apply in_map_iff in Ha. destruct Ha as [v [<- _]]. reflexivity.
+  - intros a' Ha. simpl in Ha. apply in_map_iff in Ha. destruct Ha as [i [<- _]]. reflexivity.
+  - apply andb_true_iff in Hw. destruct Hw as [Hw _]. simpl. apply prod_all_keyed.
+    apply forallb_Forall in Hw, Hu. clear -IH Hw Hu. induction l as [|x l IHl]; simpl; constructor;
+      inversion IH; inversion Hw; inversion Hu; subst; auto.
+  - apply andb_true_iff in Hw. destruct Hw as [Hw _]. simpl. apply zip_all_keyed.
+    apply forallb_Forall in Hw, Hu. clear -IH Hw Hu. induction l as [|x l IHl]; simpl; constructor;
+      inversion IH; inversion Hw; inversion Hu; subst; auto.
+  - apply andb_true_iff in Hw. destruct Hw as [Hw Hne]. apply andb_true_iff in Hw. destruct Hw as [Hw _].
+    simpl. unfold ziplongest_all. apply zip_all_keyed.
+    apply forallb_Forall in Hw, Hu, Hne. generalize (maxl (map (@length assign) (map iter l))) as n. intros n.
+    clear -IH Hw Hu Hne. induction l as [|x l IHl]; simpl; constructor;
+      inversion IH; inversion Hw; inversion Hu; inversion Hne; subst; auto.
+    apply pad_keyed; [|auto].
+    intros E. assert (L : len x = 0) by (rewrite <- sweep_len_iter, E; reflexivity).
+    match goal with H : negb (Nat.eqb (len x) 0) = true |- _ => rewrite L in H; discriminate end.
+  - apply andb_true_iff in Hw. destruct Hw as [Hw Hk]. simpl.
+    destruct l as [|x0 l0]; [discriminate|].
+    apply forallb_Forall in Hw, Hu. simpl map. intros a Ha. simpl in Ha.
+    change (In a (concat (map iter (x0 :: l0)))) in Ha. apply in_concat in Ha. destruct Ha as [it [Hit Ha]].
+    apply in_map_iff in Hit. destruct Hit as [x [<- Hx]].
+    rewrite Forall_forall in IH, Hw, Hu.
+    rewrite (IH x Hx (Hw x Hx) (Hu x Hx) a Ha). destruct Hx as [<-|Hx]; [reflexivity|].
+    rewrite forallb_forall in Hk. apply keys_eqb_eq. apply Hk. exact Hx.
+  - destruct rs as [|r rest]; [intros a []|]. intros a [<-|Ha]; [reflexivity|].
+    rewrite forallb_forall in Hu. apply keys_eqb_eq. apply Hu. exact Ha.
+Qed.
